@@ -305,6 +305,21 @@ def addResults (reg : List RegRow) (sm : List RegRow) (canReplace : Bool) : Opti
     if !canReplace && regPresent reg e then none
     else addResults (regInsert reg e) rest canReplace
 
+
+/-! ## Round 7: where the solve message and the .sol file appear (`AppSolutionHandlerImpl::HandleSolution`), and the
+option bits of `alg:rays` (hand model; proved equal to `MpVerif.Gen.StatusFlags`, see `C10_gen_app_*`, `C10_gen_ray_bits`) -/
+
+/-- the .sol file (message + `objno N code`) is written: under `-AMPL`, or when wantsol has bit 1 -/
+def solFileWritten (x : AppCtx) : Bool := x.ampl || x.wantsol.testBit 0
+/-- the solve message is printed on stdout: stand-alone run whose wantsol has not bit 8 -/
+def messagePrinted (x : AppCtx) : Bool := !x.ampl && !x.wantsol.testBit 3
+def primalPrinted (x : AppCtx) : Bool := !x.ampl && x.wantsol.testBit 1
+def dualPrinted (x : AppCtx) : Bool := !x.ampl && x.wantsol.testBit 2
+
+/-- `alg:rays`: bit 1 = return `.unbdd`, bit 2 = return `.dunbdd` -/
+def rayPrimalOfOption (rays : Nat) : Bool := rays.testBit 0
+def rayDualOfOption (rays : Nat) : Bool := rays.testBit 1
+
 def b2s (b : Bool) : String := if b then "1" else "0"
 
 def Report.toStr (r : Report) : String :=
